@@ -121,6 +121,21 @@ def circuits_for(key: tuple) -> list:
                     ops.insert(pos, third)
                     out.append(ops)
         return out
+    if kind == 'wide4':
+        # one 4-qudit gate on every 4-subset of 6 qudits (in two orders),
+        # alone, after and before a 2-qudit gate: a gate whose qudits can
+        # sit on two separate pairs of neighbours, each qudit next to
+        # another of the gate without the four being connected
+        out = []
+        two = [['g', a, b] for a, b in ((0, 5), (2, 3), (1, 4))]
+        for t in itertools.combinations(range(6), 4):
+            for loc in (list(t), [t[2], t[0], t[3], t[1]]):
+                g = ['g', *loc]
+                out.append([g])
+                for x in two:
+                    out.append([x, g])
+                    out.append([g, x])
+        return out
     if kind == 'escape7':
         # every ordered triple of 3-qudit gates on 7 qudits: the first is
         # routed and executed (its swaps give the mapped circuit an uneven
@@ -252,6 +267,24 @@ def fam_escape7(quick: bool) -> list:
     for edges in trees:
         out += specs('escape7', 7, 7, edges, ('escape7',),
                      [['trivial', 0, DEFAULT, None]], 400)
+    return out
+
+
+def fam_wide4(quick: bool) -> list:
+    """Gates wider than three qudits through placement, layout and routing
+    (a seeded change that tested "every qudit of the gate has a neighbour in
+    the gate" instead of connectedness is invisible up to three qudits)."""
+    graphs = [(6, M.line(6)), (6, M.ring(6))]
+    if not quick:
+        graphs += [(6, DOUBLE_STAR), (7, M.line(7)), (7, DOUBLE_STAR7),
+                   (6, [[0, 1], [1, 2], [3, 4], [4, 5], [2, 3], [0, 3]])]
+    variants = [['trivial', 0, DEFAULT, None], ['greedy', 1, DEFAULT, None]]
+    if not quick:
+        variants += [['trivial', 2, [0.5, 0, False], None],
+                     ['static', 1, DEFAULT, None]]
+    out = []
+    for m, edges in graphs:
+        out += specs('wide4', 6, m, edges, ('wide4',), variants, 120)
     return out
 
 
@@ -401,7 +434,7 @@ def run(ctx: Ctx) -> None:
     pam3 = [dict(c, flow='pam') for c in pam if c['flow'] == 'pam3']
     pam = [c for c in pam if c['flow'] == 'pam']
     spec_fams = [fam_escape(q), fam_small(q), fam_params(q), fam_blocked(q),
-                 fam_escape7(q)]
+                 fam_escape7(q), fam_wide4(q)]
     if not q:
         spec_fams.append(fam_bigger())
     items: list = []
